@@ -16,7 +16,8 @@ var propSpecs = map[string]*PropSpec{
 		Patterns:    []string{"./..."},
 		Level:       "proof",
 		Explanation: "tables.Authorized returns true only for the administrator short-cut, an unrestricted DSN, an unavailable permission store, or exactly one grant row for (dsn, table, user) that allows every requested operation; the row and table handlers reach their first row statement on a restricted DSN only for an administrator or after Authorized said yes for (this user, this DSN.table, the handler's operation)",
-		TrustedBase: []string{"the permission store returns exactly the rows matching the three equality filters (resources.ResHandle, C30)", "dsns service returns the DSN record"},
+		TrustedBase: []string{"the permission store returns exactly the rows matching the three equality filters (resources.ResHandle, C30)", "dsns service returns the DSN record (its cache is kept honest by one structural obligation: every writer of the dsns table drops the cached record first)"},
+		Extra:       c43Extra,
 	},
 	"C24": {
 		Patterns:    []string{"./..."},
@@ -48,7 +49,8 @@ var propSpecs = map[string]*PropSpec{
 		Patterns:    []string{"./..."},
 		Level:       "proof",
 		Explanation: "auth.ValidatePassword returns true iff the user exists, the password matches the stored credential in its format (bcrypt / braced plaintext when enabled / SHA-256), and the user may log on; the migration write stores a bcrypt hash of the accepted password",
-		TrustedBase: []string{"bcrypt.CompareHashAndPassword / GenerateFromPassword agree (bcryptOK)", "the user store returns the stored record (userIOService is an interface; the stores themselves are C30/C31)"},
+		TrustedBase: []string{"bcrypt.CompareHashAndPassword / GenerateFromPassword agree (bcryptOK)", "the user store returns the stored record (userIOService is an interface; the stores themselves are C30/C31; the database store's cache is kept honest by one structural obligation on its writers)"},
+		Extra:       c25Extra,
 	},
 	"C29": {
 		Patterns:    []string{"./..."},
